@@ -117,6 +117,8 @@ class Client:
 
     def _run(self, fn):
         try:
+            from treadmill import logcontext
+            logcontext.LOCAL_.ctx = []      # the thread-local list exists only in the importing thread
             fn()
             self.outcome = 'done'
         except _Expired:
@@ -427,7 +429,7 @@ def impl_run(case):
     cl = []
     for c in clients:
         pm = sorted([app, path, rid] for app, d in c.svc.presence.items() for path, rid in d.items())
-        cl.append({'sid': c.sid, 'alive': c.alive, 'idle': not c.busy, 'pmap': pm})
+        cl.append({'sid': c.sid, 'alive': c.alive, 'idle': c.alive and not c.busy, 'pmap': pm})
     for e in srv.oplog:
         if isinstance(e['data'], bytes):
             e['data'] = e['data'].decode()
